@@ -18,12 +18,12 @@ import common
 import gen
 
 ASSUMPTIONS = [
-    "Theorems are about the Lean model of class Interval (LibfiveModel/Interval.lean) over extended values nan|-inf|fin x|+inf of an arbitrary linearly ordered field, in exact arithmetic.",
-    "Boost.Interval's primitives are parameters with their contracts as hypotheses (for non-NaN a in A, b in B with a non-NaN exact result, the result lies in the returned bounds; division/reciprocal/negative powers only for non-zero divisors; log/pow/nth_root only where Boost returns a non-empty interval): outward rounding and transcendental enclosures are Boost's, assumed.",
+    "Theorems are about the Lean model of class Interval (LibfiveModel/Interval.lean, mirroring the fixed interval.hpp) over extended values nan|-inf|fin x|+inf of an arbitrary linearly ordered field, in exact arithmetic.",
+    "Boost.Interval's primitives are parameters with their contracts as hypotheses (for non-NaN a in A, b in B with a non-NaN exact result, the result lies in the returned bounds; division/reciprocal/negative powers only for non-zero divisors; log only for a positive upper bound, pow(.,0) not on [0,0], nth_root only for finite bounds): outward rounding and transcendental enclosures are Boost's, assumed. The contracts are idealised where Boost itself returns a NaN bound for non-NaN values (inf-inf endpoint sums): that corner is the listed finding flagged-nan-bounds-hull-rule.",
     "Point semantics follow eval_array.cpp in exact arithmetic; Eigen's vector kernels (few-ulp error, non-IEEE results at overflow) are not modelled: deviations are found by the oracle stream and recorded as known findings.",
-    "pow / nth_root exponents are integer constants (the only exponents libfive's API admits); nth_root only for finite operand bounds.",
+    "pow / nth_root exponents are integer constants (the only exponents libfive's API admits); these two opcodes keep a side condition (SafeArgs): pow exponent 0 not on the base [0,0], nth_root only for finite operand bounds. Every other opcode's enclosure lemma and tape_enclosure are unconditional.",
     "The inductive invariant is the strong enclosure (a flagged interval still bounds its non-NaN values); the property statement (unflagged => enclosed) is its corollary.",
-    "Opcodes whose flag logic is incomplete on this tree carry an explicit side condition (SafeArgs) in the *_partial theorems; the negations of the unconditional lemmas are proved with witnesses that this check replays on the real evaluators.",
+    "The *_unsound_old theorems are about the pre-fix formulas; their witnesses are still replayed on the real evaluators and must NOT reproduce (a reproduced fixed defect is reported as a VIOLATION).",
 ]
 
 INF = float("inf")
@@ -272,6 +272,12 @@ def expr_witnesses():
               (1, 0, 0), (1, 0, 0), 2))
     E.append(("mod(sqrt(x),1)", [X, "n 2 un sqrt 0", c(3, 1), "n 4 bin mod 2 3", "root 4"], (-1, 0, 0), (1, 0, 0), 5))
     E.append(("min(y,log(x))", [X, Y, "n 2 un log 0", "n 3 bin min 1 2", "root 3"], (-1, -3, 0), (0, 3, 0), 3))
+    # remaining corner of the hull rule: a flagged operand with a NaN bound that Boost produces itself
+    E.append(("max(y,pow(x,0)) x=[0,0]", [X, Y, c(2, 0), "n 3 bin pow 0 2", "n 4 bin max 1 3", "root 4"],
+              (0, -3, 0), (0, -2, 0), 2))
+    E.append(("min(y,log(x)+exp(1000z)) x=[0,0]", [X, Y, "n 2 z", "n 3 un log 0", c(4, 1000), "n 5 bin mul 2 4",
+                                                     "n 6 un exp 5", "n 7 bin add 3 6", "n 8 bin min 1 7", "root 8"],
+              (0, -3, 0), (0, 3, 1), 3))
     E.append(("log(x) on [0,0]", [X, "n 2 un log 0", "root 2"], (0, 0, 0), (0, 0, 0), 2))
     return E
 
@@ -482,12 +488,16 @@ def run(rep, tier, seed, replay=None):
         rep.violation("rounding mode not restored after interval evaluation: " + ln,
                       {"kind": "oracle", "line": ln}, key=None)
 
-    # witnesses: which listed mechanisms reproduced in this run
+    # witnesses: listed mechanisms must still be observable, repaired ones must not reproduce (if one did,
+    # its key is no longer listed, so it has been reported as a VIOLATION above)
     reproduced = sorted(by_key)
+    listed = {k["key"] for k in rep.known}
+    hull = [1 for h in rep.known_hits if h[0] == "C02:flagged-nan-bounds-hull-rule"]
     expected = sorted({k for _, k in wit})
     not_reproduced = [k for k in expected if k not in by_key]
-    if not_reproduced:
-        common.log("C02: witnesses that did not reproduce (defect fixed?): %s" % ", ".join(not_reproduced))
+    listed_not_reproduced = [k for k in sorted(listed) if k not in by_key and not (k == "C02:flagged-nan-bounds-hull-rule" and hull)]
+    if listed_not_reproduced:
+        common.log("C02: listed findings that did not reproduce (fixed? move them to 'fixed'): %s" % ", ".join(listed_not_reproduced))
 
     # ---- tie verdicts
     found_input = bool(by_key) or bool(unclassified)
@@ -501,7 +511,8 @@ def run(rep, tier, seed, replay=None):
                        "mismatches": len(mism), "first": mism[:5],
                        "theorems_affected": ["Libfive.C02.op_enclosure", "Libfive.C02.tape_enclosure_partial"]},
                       no_input=not unl)
-    if not summary or drv_ok + len(mism) < n_r:
+    drv_mism = int(summary[0].split()[4]) if summary else 0
+    if not summary or drv_ok + drv_mism < n_r:
         rep.violation("driver did not judge every case: %s" % (summary[:1],),
                       {"kind": "correspondence", "summary": summary, "cases": n_r}, no_input=True)
     if not aud["ok"]:
@@ -524,7 +535,8 @@ def run(rep, tier, seed, replay=None):
                    "violations_after_slack": n_viol, "by_mechanism": {k: len(v) for k, v in by_key.items()},
                    "unclassified": len(unclassified), "root_escapes": len(root_escapes),
                    "root_escapes_from_flagged_origin": n_root_flagged_origin, "witness_mechanisms_reproduced": reproduced,
-                   "witness_mechanisms_not_reproduced": not_reproduced},
+                   "repaired_witnesses_not_reproducing": [k for k in not_reproduced if k not in listed],
+                   "listed_findings_not_reproduced": listed_not_reproduced},
         "distribution": {"expr_styles": {s: sum(1 for m in expr_meta if m["style"] == s) for s in ("csg", "arith", "trans", "all")},
                          "box_kinds": {k: sum(m["boxes"].count(k) for m in expr_meta) for k in
                                        ("ordinary", "degenerate", "tiny", "huge", "straddle", "edge", "unit")},
